@@ -121,9 +121,16 @@ package basicauth
 //@ extern (*bufio.Scanner).Scan
 //@ extern (*bufio.Scanner).Text
 //@ extern (*bufio.Scanner).Err
+//@ // C03 "never disclosed without credentials": an entry that one of the format parsers REJECTS (an unsupported or
+//@ // malformed hash) fails the whole file - it is never handed on to the next parser (the last one, plain text, accepts
+//@ // anything: the stored hash string would become the password). formatErrs counts the errors the parsers reported.
+//@ ghost formatErrs int
 //@ func parseHtpasswd
 //@   requires pm != nil
-//@   modifies MV:map[string]github.com/tmpim/casket/caskethttp/basicauth.PasswordMatcher, MD:map[string]github.com/tmpim/casket/caskethttp/basicauth.PasswordMatcher
+//@   modifies MV:map[string]github.com/tmpim/casket/caskethttp/basicauth.PasswordMatcher, MD:map[string]github.com/tmpim/casket/caskethttp/basicauth.PasswordMatcher, ghost:formatErrs
+//@   at call dynamic#1 do formatErrs = ite(result1 != nil, formatErrs + 1, formatErrs)
 //@   ensures [only_the_given_table] unchanged_except("map:map[string]github.com/tmpim/casket/caskethttp/basicauth.PasswordMatcher", pm)
-//@   loop 1 invariant unchanged_except("map:map[string]github.com/tmpim/casket/caskethttp/basicauth.PasswordMatcher", pm)
-//@   loop 2 invariant unchanged_except("map:map[string]github.com/tmpim/casket/caskethttp/basicauth.PasswordMatcher", pm)
+//@   ensures [a_rejected_entry_fails_the_file] formatErrs != old(formatErrs) ==> result != nil
+//@   at call mapupdate:*#1 before [only_an_entry_its_parser_accepted_is_installed] formatErrs == old(formatErrs) && matcher != nil && arg1 == user
+//@   loop 1 invariant unchanged_except("map:map[string]github.com/tmpim/casket/caskethttp/basicauth.PasswordMatcher", pm) && formatErrs == old(formatErrs)
+//@   loop 2 invariant unchanged_except("map:map[string]github.com/tmpim/casket/caskethttp/basicauth.PasswordMatcher", pm) && formatErrs == old(formatErrs)
